@@ -65,6 +65,27 @@ Proof.
 Qed.
 Print Assumptions c06_ttl_positive.
 
+(* Option boundary values. WithExpire(d) / WithNotFoundExpire(d) with d <= 0, like no option at all, leave the defaults
+   (7 days / 1 minute): what is stored then has a TTL in the default's window, at least one second -- never "no expiry". *)
+Theorem c06_option_defaults : forall f d, draw_ok f -> d <= 0 ->
+  effective (Some d) default_expire = default_expire /\ effective None default_expire = default_expire /\
+  effective (Some d) default_nfexpire = default_nfexpire /\ effective None default_nfexpire = default_nfexpire /\
+  1 <= ttl_lo default_expire <= ceil_secs (around f (effective (Some d) default_expire)) /\
+  ceil_secs (around f (effective (Some d) default_expire)) <= ttl_hi default_expire /\
+  1 <= ttl_lo default_nfexpire <= ceil_secs (around f (effective (Some d) default_nfexpire)) /\
+  ceil_secs (around f (effective (Some d) default_nfexpire)) <= ttl_hi default_nfexpire /\
+  ttl_lo default_expire = 574560 /\ ttl_hi default_expire = 635040 /\ ttl_lo default_nfexpire = 57 /\ ttl_hi default_nfexpire = 63.
+Proof.
+  intros f d Hf Hd.
+  destruct (effective_default d default_expire Hd) as [E1 E2]. destruct (effective_default d default_nfexpire Hd) as [N1 N2].
+  rewrite E1, N1.
+  assert (De : dur_ok default_expire) by (split; [discriminate | reflexivity]).
+  assert (Dn : dur_ok default_nfexpire) by (split; [discriminate | reflexivity]).
+  pose proof (ttl_window f default_expire Hf De) as [A B]. pose proof (ttl_window f default_nfexpire Hf Dn) as [A' B'].
+  repeat split; auto; try reflexivity; try assumption; discriminate.
+Qed.
+Print Assumptions c06_option_defaults.
+
 Example c06_ttl_long_expiries :
   (* 101 d and 10 y, at both ends of the jitter *)
   ceil_secs (around (19 # 20) (8726400 * sec)) = 8290080 /\ ceil_secs (around (21 # 20) (8726400 * sec)) = 9162720 /\
